@@ -359,6 +359,35 @@ func c11DCase(o *hx.Out, r *hx.Rng, n1, n2 int, t []int, stream string) {
 	o.Add(cs, c11DInput{"udist", n1, n2, t}, fmt.Sprint("d", n1, n2, t), len(t) != 1)
 }
 
+// one case of kind 2 at a chosen set of points (q = 4U)
+func c11DCaseAt(o *hx.Out, n1, n2 int, t []int, qlist []int, stream string) {
+	d := st.UDist{N1: n1, N2: n2, T: t}
+	var qs []hx.Sx
+	for _, q := range qlist {
+		U := float64(q) / 4
+		qs = append(qs, hx.L(hx.I(q), c11F(func() float64 { return d.CDF(U) }), c11F(func() float64 { return d.PMF(U) })))
+	}
+	o.Count("udist:" + stream)
+	o.Count(fmt.Sprintf("udist-N:%d", n1+n2))
+	cs := hx.L(hx.I(2), hx.I(n1), hx.I(n2), c11IList(t), hx.List(qs))
+	o.Add(cs, c11DInput{"udist", n1, n2, t}, fmt.Sprint("d", n1, n2, t, qlist), len(t) != 1)
+}
+
+// a few points of the support: both ends, around the mean, random ones
+func c11FewPoints(r *hx.Rng, n1, n2 int, tied bool) []int {
+	step := 4
+	if tied {
+		step = 2
+	}
+	m := 4 * n1 * n2
+	mid := (m / 2 / step) * step
+	qs := []int{-step, 0, step, mid - step, mid, mid + step, m - step, m, m + step}
+	for i := 0; i < 6; i++ {
+		qs = append(qs, step*r.Intn(m/step+1))
+	}
+	return qs
+}
+
 func c11Shuffle(r *hx.Rng, x []int64) []int64 {
 	y := append([]int64(nil), x...)
 	for i := len(y) - 1; i > 0; i-- {
@@ -401,7 +430,7 @@ func c11Compositions(N int, f func([]int)) {
 
 func genC11(o *hx.Out, r *hx.Rng, tier string, replay string) error {
 	thorough := tier == "thorough"
-	o.Rule = "kind utest: every pair of multisets over the ordered alphabet {0,1,2,3} with sizes up to the bound (presented in shuffled order) x 3 alternatives, empty samples, random samples with sizes 20-60 on both sides of the 25/50 switches (untied, heavily tied, lightly tied, all equal, shifted); kind udist: every tie vector (composition of N) x every n1 through UDist.CDF/PMF at every half-integer plus quarter points, untied UDist for all small n1,n2. non-trivial = not an error case; distinct by input"
+	o.Rule = "kind utest: every pair of multisets over the ordered alphabet {0,1,2,3} with sizes up to the bound (presented in shuffled order) x 3 alternatives, empty samples, random samples with sizes 20-60 on both sides of the 25/50 switches (untied, heavily tied, lightly tied, all equal, shifted); a deterministic sweep over every pooled size N = 18..50 in the tied exact regime (all near-even splits, a subset of the others; big runs, several runs, light ties) and N = 18..36 untied; kind udist: every tie vector (composition of N) x every n1 through UDist.CDF/PMF at every half-integer plus quarter points, untied UDist for all small n1,n2. non-trivial = not an error case; distinct by input"
 	nmax := 4
 	if thorough {
 		nmax = 5
@@ -604,6 +633,100 @@ func genC11(o *hx.Out, r *hx.Rng, tier string, replay string) error {
 		x1, x2 := mk2(n1), mk2(n2)
 		alt := alts[r.Intn(3)]
 		c11UCase(o, x1, x2, alt, "two-values")
+	}
+	// (g) deterministic sweep over pooled sizes inside the tied exact regime: every
+	// near-even split of every N = 18..50 (n1, n2 <= 25) and a random subset of the
+	// other splits; tied samples with few big runs, with several runs and (a
+	// fraction) with only a few duplicates; the same tie vectors through UDist at a
+	// few points. Exercises every C(N, n1) and the binomials of large runs.
+	restFrac := 0.08
+	lightFrac := 0.34
+	if thorough {
+		restFrac, lightFrac = 1, 1
+	}
+	for N := 18; N <= 50; N++ {
+		for n1 := 1; n1 < N; n1++ {
+			n2 := N - n1
+			if n1 > 25 || n2 > 25 {
+				continue
+			}
+			d := n1 - n2
+			if d < 0 {
+				d = -d
+			}
+			stream := "size-sweep-near-even"
+			if d > 2 {
+				if !r.Chance(restFrac) {
+					continue
+				}
+				stream = "size-sweep-other"
+			}
+			for variant := 0; variant < 3; variant++ {
+				var x1, x2 []int64
+				switch variant {
+				case 0, 1: // few big runs / several runs
+					k := 2 + r.Intn(2)
+					if variant == 1 {
+						k = 4 + r.Intn(3)
+					}
+					gen := func(n int) []int64 {
+						x := make([]int64, n)
+						for i := range x {
+							x[i] = int64(r.Intn(k))
+						}
+						return x
+					}
+					x1, x2 = gen(n1), gen(n2)
+					// make sure there are at least two distinct values and one tie
+					x1[0], x2[0] = 0, 1
+				case 2: // light ties
+					if !r.Chance(lightFrac) {
+						continue
+					}
+					perm := make([]int64, N)
+					for i := range perm {
+						perm[i] = int64(i)
+					}
+					perm = c11Shuffle(r, perm)
+					for dd := 0; dd < 1+r.Intn(3); dd++ {
+						perm[r.Intn(N)] = perm[r.Intn(N)]
+					}
+					if perm[0] != perm[1] {
+						perm[1] = perm[0]
+					}
+					x1, x2 = perm[:n1], perm[n1:]
+				}
+				for _, alt := range alts {
+					c11UCase(o, x1, x2, alt, stream)
+				}
+				t := c11TieVector(x1, x2)
+				if len(t) >= 2 && c11HasTies(t) {
+					c11DCaseAt(o, n1, n2, t, c11FewPoints(r, n1, n2, true), stream)
+				}
+			}
+		}
+	}
+	// (h) untied sizes N = 18..36, same scheme (near-even splits, subset of the rest)
+	for N := 18; N <= 36; N++ {
+		for n1 := 1; n1 < N; n1++ {
+			n2 := N - n1
+			d := n1 - n2
+			if d < 0 {
+				d = -d
+			}
+			if d > 2 && !r.Chance(restFrac) {
+				continue
+			}
+			perm := make([]int64, N)
+			for i := range perm {
+				perm[i] = int64(2*i) - 17
+			}
+			perm = c11Shuffle(r, perm)
+			for _, alt := range alts {
+				c11UCase(o, perm[:n1], perm[n1:], alt, "size-sweep-untied")
+			}
+			c11DCaseAt(o, n1, n2, nil, c11FewPoints(r, n1, n2, false), "size-sweep-untied")
+		}
 	}
 	return nil
 }
